@@ -83,6 +83,19 @@ THEOREMS = {
             "JP.C04.decodePatch_no_panic", "JP.C04.mergePatch_no_panic", "JP.C04.mergeMergePatches_no_panic", "JP.C04.createMergePatch_no_panic",
             "JP.C04.equal_total", "JP.C04.apply_no_panic_noensure", "JP.C04.apply_no_panic", "JP.C04.applyOps_no_panic",
         ],
+        "JP.Props.C04heap": [
+            "JP.C04heap.ex_repr", "JP.C04heap.shared_not_repr",
+            "JP.C04heap.repr_frame", "JP.C04heap.repr_write", "JP.C04heap.repr_alloc", "JP.C04heap.repr_tree",
+            "JP.C04heap.intoDoc_refines", "JP.C04heap.intoAry_refines", "JP.C04heap.intoContainer_refines",
+            "JP.C04heap.get_refines", "JP.C04heap.add_refines", "JP.C04heap.set_refines", "JP.C04heap.remove_refines",
+            "JP.C04heap.find_refines", "JP.C04heap.findObject_refines", "JP.C04heap.findObject_twice",
+            "JP.C04heap.remove_op_refines", "JP.C04heap.replace_op_refines", "JP.C04heap.move_op_refines",
+            "JP.C04heap.add_op_refines", "JP.C04heap.copy_op_refines", "JP.C04heap.test_op_refines",
+            "JP.C04heap.ensure_refines", "JP.C04heap.ensure_anyNodeGoal_refuted", "JP.C04heap.ex_rootOK",
+            "JP.C04heap.apply_refines", "JP.C04heap.tree_preserved",
+            "JP.C04heap.marshal_terminates", "JP.C04heap.abs_terminates", "JP.C04heap.marshalRoot_eq",
+            "JP.C04heap.applyHeap_eq", "JP.C04heap.applyHeap_no_panic", "JP.C04heap.patch_values_fresh",
+        ],
     },
     "C05": {
         "JP.Props.C17decode": [
@@ -338,6 +351,18 @@ THEOREMS = {
             "JP.C17.typed_error_is_number", "JP.C17.typed_fuel_irrelevant", "JP.C17.typeFields_fuel_irrelevant",
             "JP.C17.typeFields_paths_valid",
         ],
+        "JP.Props.C17float": [
+            "JP.C17.float_roundtrip", "JP.C17.float_roundtrip_quoted", "JP.C17.float_roundtrip_bits",
+            "JP.C17.float_encode_wellformed", "JP.C17.float_encode_wellformed_quoted", "JP.C17.float_encode_none_iff",
+            "JP.C17.parse_sign", "JP.C17.parse_exact_nat", "JP.C17.store_exact_nat",
+            "JP.C17.ofNat_value", "JP.C17.canonical_injective", "JP.C17.canonical_fixed",
+            "JP.C17.encode_canonical", "JP.C17.format_exact_nat", "JP.C17.nat_literal_roundtrip",
+            "JP.C17.canonical_nat", "JP.C17.format_neg", "JP.C17.canonical_neg",
+            "JP.C17.numLitModelled_canonical", "JP.C17.canonicalB_iff", "JP.C17.float_roundtrip_pattern",
+            "JP.C17.bits_fields", "JP.C17.parse_uses_roundRat", "JP.C17.round_nearest_even",
+            "JP.C17.parse_zero", "JP.C17.round_nearest_all", "JP.C17.parse_nearest",
+            "JP.C17.round_exact",
+        ],
     },
     "C20": {
         "JP.Props.C20": [
@@ -372,6 +397,22 @@ THEOREMS = {
             "JP.C19.equal_malformed_legacy", "JP.C19.merge_output_valid_legacy", "JP.C19.create_output_valid_legacy",
             "JP.C19.apply_output_valid_legacy",
         ],
+        "JP.Props.C19float": [
+            "JP.C19.createF_agrees", "JP.C19.createF_agrees_of_good", "JP.C19.createF_agrees_modelled",
+            "JP.C19.create_value_float", "JP.C19.create_refines_float", "JP.C19.create_roundtrip_float",
+            "JP.C19.create_roundtrip_merge_float", "JP.C19.create_minimal_float", "JP.C19.create_same_float",
+            "JP.C19.create_null_float", "JP.C19.create_array_refines_float", "JP.C19.create_output_valid_float",
+            "JP.C19.create_rejects_float", "JP.C19.create_overflow_float",
+            "JP.C19.negZero_agrees_counterexample", "JP.C19.negZero_roundtrip_counterexample",
+            "JP.C19.create_upToZero_float",
+            "JP.Legacy.floatEqLit_good", "JP.Legacy.getDiffF_eq", "JP.Legacy.encV_of_NV", "JP.Legacy.NVM_getDiff",
+            "JP.Legacy.floatEqLit_canonical", "JP.Legacy.zeroNormM_getDiffF", "JP.Legacy.zeroNorm_merge",
+            "JP.Legacy.eqv_zeroNorm",
+        ],
+        # depends on the float theorems (JP.Props.C17float, JP/Lemmas/Float*.lean)
+        "JP.Props.C19floatNat": [
+            "JP.C19.modelledGood", "JP.C19.createF_extends_modelled", "JP.C19.createModelled_canonical",
+        ],
         "JP.Props.C03spec": [
             "JP.C03.roundtrip", "JP.C03.empty_iff", "JP.C03.minimal_rec",
         ],
@@ -391,16 +432,17 @@ THEOREMS = {
 OPEN = {
     "C01": ["the byte-level theorem carries `result depth <= 10000` (needed: the reference parser has a nesting limit, Marshal has none; counterexample in C01bytes.lean)"],
     "C03": [],
-    "C04": ["the Go heap is modelled by values: sharing and cycles are not representable (see DESIGN D17)"],
+    "C04": ["v5: the Go heap of *lazyNode is modelled by a store (JP/Heap/Model.lean) and PROVED to be refined by the value model (JP.C04heap.applyHeap_eq, tree_preserved, marshal_terminates: no sharing, no cycle, Marshal returns); residual: the store model is a hand transcription (one cell = a lazyNode together with the partialDoc/partialArray it owns; `equal` = verdict on the abstraction + in-place deepParse on success), tied to /repo by the per-case comparison applyHeap = applyBytes in the apply streams; the legacy root package is still modelled by values only"],
     "C09": ["'no exported function writes to the byte slices or Patch it is given' is observed and supported by regenerated facts, not a theorem"],
     "C10": ["data-race freedom under the Go memory model: executed schedules only (race detector)"],
     "C15": ["tests_transparent holds outside the known-finding trigger class and for duplicate-free names (C15.counterexample_dup shows duplicates break it: outside every property's domain)"],
     "C16": [],
-    "C17": ["float formatting, foreign MarshalJSON/MarshalText methods, recursive types, the DECODER on struct targets: differential testing against encoding/json only (the ENCODER on typed values — structs, tags, embedding, maps, slices, pointers — is modelled: JP/Codec/Typed.lean, stream `typed`, JP.Props.C17typed)",
+    "C17": ["foreign MarshalJSON/MarshalText methods, recursive types, the DECODER on struct targets: differential testing against encoding/json only (the ENCODER on typed values — structs, tags, embedding, maps, slices, pointers — is modelled: JP/Codec/Typed.lean, stream `typed`, JP.Props.C17typed)",
+            "floats (JP/Codec/Float.lean, stream `float`, JP.Props.C17float): the shortest-digits search checks its own answer, so the round trip is proved by construction; that the search never gives up (17 / 9 digits always suffice) is NOT proved — `searchFails` is decidable and evaluated on every generated value (never true); that the chosen digits are the CLOSEST shortest ones (Go's tie rule: even last digit) is validated by the correspondence only; `parseFloat` is proved to be `roundRat` on the exact fraction for every literal (shortcuts for astronomic exponents included) and `roundRat` to round to the nearest integer significand (ties to even) at the exponent of the value's binade (round_nearest_even); and that result is nearest to the value among ALL finite floats of the format (round_nearest_all, parse_nearest); not proved: monotonicity, and that an overflow answer is given ONLY above the largest finite float plus half an ulp (the exponent condition is in round_nearest_even); format_exact_nat is proved for n < 10^15 (not up to 2^53 / 10^21); literals with more than 800 significant INTEGER digits are outside the model's domain (`withinGoDigits`): there strconv.ParseFloat itself is not correctly rounded (\"1\" + 800 zeros + \"e-800\" reads as 0.1 in the fork and in encoding/json alike); float fields inside typed values (stream `typed`) are still not generated",
             "typed_escape_irrelevantGoal (equal values under both EscapeHTML settings) is refuted for `,string` fields of kind string (JP.C17.typed_escape_irrelevant_counterexample: the standard library's own behaviour); proved up to the relation escRel",
             "Decoder/Encoder streams are modelled (JP/Codec/Stream.lean) for the decoder model's target types and the encoder model's value shapes; refill's chunking is abstracted (checked by differential runs through five chunkings), messages/offsets of stream-level errors are not modelled; Encode with a NON-EMPTY prefix: the bytes are the modelled Indent (compared differentially), parse-back is proved for the empty prefix only; `syntaxStickyEveryCallGoal` is false in the real code and in encoding/json (Token/More ignore dec.err): proved for every later Decode",
             "the unchecked entry points (UnmarshalValid*) on ILL-FORMED texts: model validated by testing only (the library never calls them behind a failed Valid gate)"],
-    "C19": ["CreateMergePatch is modelled for plain-integer numbers only (float64 formatting is not modelled): the `createModelled` domain marker"],
+    "C19": ["CreateMergePatch is modelled for ALL numbers (Legacy.createMergePatchF on JP/Codec/Float.lean; compared with the Go code on every case) and proved for C19's quantifier (numbers spelled the way Go prints a float64, `createCanonical`): on literals without `-0` (create_*_float; negZero_*_counterexample), and with `-0` up to float equality (create_upToZero_float = the run-time predicate Legacy.c19create). Outside canonical spellings (1.0, 1e2, ...) the model is validated by the correspondence only; that `floatEncode` never answers the defensive `none` on a finite float is not proved (`encNum` keeps the literal then)"],
     "C20": ["go-flags, OS, process exit: observed only"],
 }
 ASSUME = {
